@@ -765,7 +765,8 @@ impl Sim {
                     self.vis[client].insert(slot);
                 }
                 self.op();
-                if gap && self.cfg.policy == 0 {
+                // (a tick-less frame is only possible once the first running frame has incremented the tick)
+                if gap && self.cfg.policy == 0 && self.tick() >= 1 {
                     // the mapping is registered in a later frame of the same tick window
                     self.flags.insert("prespawn_mapping_in_later_frame");
                     self.server_frame(false);
@@ -860,6 +861,37 @@ impl Sim {
             Step::DropMut { client, idx } => {
                 self.drop_s2c(client, 1, idx);
             }
+            Step::PartialMut { client, mask, ack } => {
+                if client >= nclients || !self.clients[client].connected {
+                    return;
+                }
+                let n = self.clients[client].s2c[1].len();
+                if n >= 2 {
+                    self.flags.insert("partial_delivery_of_one_batch");
+                }
+                let mut bit = 0;
+                let mut keep_idx = 0u16;
+                for _ in 0..n {
+                    let deliver = mask & (1 << (bit % 8)) != 0;
+                    bit += 1;
+                    if deliver {
+                        // deliver the first not-yet-handled message
+                        let len = self.clients[client].s2c[1].len();
+                        let raw = if len == 0 { 0 } else { (((keep_idx as usize) << 16) / len).min(65535) as u16 };
+                        let _ = raw;
+                        // messages before `keep_idx` stay queued (none here): always take the front
+                        self.deliver_s2c(client, 1, 0);
+                    } else {
+                        self.clients[client].s2c[1].pop_front();
+                        self.flags.insert("mut_dropped");
+                    }
+                    keep_idx = 0;
+                }
+                self.client_frame(client);
+                if ack {
+                    while self.deliver_c2s(client, 0, 0) {}
+                }
+            }
             Step::DeliverAck { client, n } => {
                 for _ in 0..n {
                     if !self.deliver_c2s(client, 0, 0) {
@@ -876,6 +908,26 @@ impl Sim {
                 if let Some(ch) = self.pick_s2c_event_channel(client, chan, true) {
                     self.drop_s2c(client, ch, idx);
                 }
+            }
+            Step::EventsFirst { client } => {
+                if client >= nclients || !self.clients[client].connected {
+                    return;
+                }
+                for ch in 2..self.skinds.len() {
+                    while self.deliver_s2c(client, ch, 0) {}
+                }
+                self.client_frame(client);
+                while self.deliver_s2c(client, 0, 0) {}
+                self.client_frame(client);
+            }
+            Step::EventsOnly { client } => {
+                if client >= nclients || !self.clients[client].connected {
+                    return;
+                }
+                for ch in 2..self.skinds.len() {
+                    while self.deliver_s2c(client, ch, 0) {}
+                }
+                self.client_frame(client);
             }
             Step::DeliverCEv { client, chan, idx } => {
                 if let Some(ch) = self.pick_c2s_event_channel(client, chan, false) {
@@ -895,6 +947,42 @@ impl Sim {
             }
             Step::Connect { client } => self.connect(client),
             Step::Authorize { client } => self.authorize(client),
+            Step::FaultEpisode { client, slot, what, restart } => {
+                if !self.cfg.faults || client >= nclients || slot >= nslots || !self.running {
+                    return;
+                }
+                self.connect(client);
+                if self.slots[slot].is_none() {
+                    self.step(&Step::Spawn { slot, marked: true, comps: vec![K::A] });
+                }
+                let has_s = self.slots[slot].is_some_and(|e| self.has_k(e, K::S));
+                self.step(&if has_s { Step::Remove { slot, k: K::S } } else { Step::Insert { slot, k: K::S } });
+                self.step(&Step::Mutate { slot, k: K::A });
+                if self.cfg.events {
+                    self.step(&Step::EmitS { kind: if what & 8 != 0 { SK::Dep } else { SK::Unord }, mode: 0, target: client, refslot: slot });
+                }
+                self.force_tick_frame();
+                self.step(&Step::Mutate { slot, k: K::A });
+                self.force_tick_frame();
+                if what & 1 != 0 {
+                    self.step(&Step::EventsOnly { client });
+                }
+                if what & 2 != 0 {
+                    while self.deliver_s2c(client, 1, 0) {}
+                    self.client_frame(client);
+                }
+                if what & 4 != 0 {
+                    while self.deliver_s2c(client, 0, 0) {}
+                    self.client_frame(client);
+                }
+                self.flags.insert("fault_episode");
+                if restart {
+                    self.step(&Step::ServerRestart);
+                } else {
+                    self.step(&Step::Disconnect { client });
+                }
+                self.connect(client);
+            }
             Step::ServerRestart => {
                 if !self.cfg.faults {
                     return;
